@@ -198,17 +198,34 @@ def unit_fully_diagonalize_normalisation(nb, given, timeout_ms=20000):
 
 
 # ------------------------------------------------------------------------------------------------
-def unit_check_biorthonormality(nsub, timeout_ms=20000):
-    """_check_biorthonormality (numeric branch): raises ValueError iff (hstack of all left vectors)^dagger @ (hstack of all right vectors)
-    is not allclose to the identity of that size within atol - i.e. L^dagger R = 1 over ALL supplied vectors, cross terms between
-    subspaces included; vectors are taken in the order given, sparse ones densified; nothing is modified."""
+def unit_check_biorthonormality(nsub, kind="ndarray", timeout_ms=20000):
+    """_check_biorthonormality: raises ValueError iff (hstack of all left vectors)^dagger @ (hstack of all right vectors) is not the identity of that
+    size - i.e. L^dagger R = 1 over ALL supplied vectors, cross terms between subspaces included; vectors are taken in the order given; nothing is modified.
+      kind = ndarray | sparse-array | sparse-matrix | mixed : compared with np.allclose within atol, sparse ones densified first;
+      kind = sympy-mutable | sympy-immutable             : compared with sympy.Eq, rejected iff that is decided False (three-valued logic) -
+                                                            for EVERY sympy matrix class, mutable or not."""
     fn = frontend.find(MODULE, "_check_biorthonormality")
+    symbolic = kind.startswith("sympy")
 
     def harness(eng):
-        rights = [Val(f"R{b}", ("ndarray",)) for b in range(nsub)]
-        lefts = [Val(f"L{b}", ("ndarray",)) for b in range(nsub)]
+        kinds = {"ndarray": ("ndarray",), "sparse-array": ("sparray",), "sparse-matrix": ("spmatrix",),
+                 "sympy-mutable": ("MatrixBase", "Matrix", "MutableDenseMatrix"), "sympy-immutable": ("MatrixBase", "ImmutableDenseMatrix", "ImmutableMatrix")}
+
+        def kinds_of(b):
+            if kind == "mixed":
+                return kinds["ndarray"] if b % 2 == 0 else kinds["sparse-array"]
+            return kinds[kind]
+        rights = [Val(f"R{b}", kinds_of(b)) for b in range(nsub)]
+        lefts = [Val(f"L{b}", kinds_of(b)) for b in range(nsub)]
         close = eng.fresh("overlap_is_close_to_identity", "bool")
+        eq_false = eng.fresh("sympy_Eq_is_decided_False", "bool")
         seen = {}
+
+        def is_sparse(x):
+            return isinstance(x, Val) and any(k in ("sparray", "spmatrix") for k in x.kinds)
+
+        def dense_of(x):
+            return T(".toarray", x) if is_sparse(x) else x
 
         def hstack(e, seq):
             s = e.as_seq(seq)
@@ -217,6 +234,22 @@ def unit_check_biorthonormality(nsub, timeout_ms=20000):
         def allclose(e, a, b, atol=None):
             seen["allclose"] = (a, b, atol)
             return SB(close)
+
+        class EqResult(T):
+            def m_binop(self, e, op, other, reflected):
+                if isinstance(op, ast.Eq) and other is False:
+                    return SB(eq_false)
+                return NotImplemented
+
+        def sym_eq(e, a, b):
+            seen["Eq"] = (a, b)
+            return EqResult("Eq")
+
+        class MatrixCls(TypeObj):
+            def m_getattr(self, e, name):
+                if name == "hstack":
+                    return Builtin("Matrix.hstack", lambda e2, *xs: T("hstack", *xs))
+                raise Unsupported(f"sympy.Matrix.{name}")
         ATOL = T("atol")
         T_getattr = T.m_getattr
 
@@ -226,8 +259,10 @@ def unit_check_biorthonormality(nsub, timeout_ms=20000):
             return T_getattr(self, e, name)
         eng.globals.update({"np": Namespace("np", {"ndarray": TypeObj("ndarray"), "hstack": Builtin("hstack", hstack), "allclose": Builtin("allclose", allclose),
                                                    "eye": Builtin("eye", lambda e, n: T("eye", n))}),
-                            "sparse": Namespace("sparse", {"issparse": Builtin("issparse", lambda e, x: False), "spmatrix": TypeObj("spmatrix"), "sparray": TypeObj("sparray")}),
-                            "sympy": Namespace("sympy", {"MatrixBase": TypeObj("MatrixBase")}),
+                            "sparse": Namespace("sparse", {"issparse": Builtin("issparse", lambda e, x: is_sparse(x)), "spmatrix": TypeObj("spmatrix"), "sparray": TypeObj("sparray")}),
+                            "sympy": Namespace("sympy", {"MatrixBase": TypeObj("MatrixBase"), "Matrix": MatrixCls("Matrix"), "ImmutableMatrix": TypeObj("ImmutableMatrix"),
+                                                         "MutableDenseMatrix": TypeObj("MutableDenseMatrix"), "ImmutableDenseMatrix": TypeObj("ImmutableDenseMatrix"),
+                                                         "Eq": Builtin("sympy.Eq", sym_eq), "eye": Builtin("sympy.eye", lambda e, n: T("eye", n))}),
                             "Dagger": Builtin("Dagger", lambda e, x: T("Dagger", x))})
         T.m_getattr = patched
         try:
@@ -238,18 +273,29 @@ def unit_check_biorthonormality(nsub, timeout_ms=20000):
                 raised = pr.exc.cls
         finally:
             T.m_getattr = T_getattr
+        from contracts.direct import term_eq_py
+        if symbolic:
+            eng.oblige("raises-ValueError-iff-sympy-decides-the-overlap-differs-from-the-identity", z3.BoolVal(raised == "ValueError") == eq_false if raised in (None, "ValueError") else z3.BoolVal(False),
+                       detail=f"raised {raised}; every sympy matrix class (mutable, immutable) is checked")
+            ok = "Eq" in seen
+            eng.oblige("overlap-compared-with-sympy-Eq", z3.BoolVal(ok), detail="the check must not be skipped for any sympy matrix class")
+            if ok:
+                a, b = seen["Eq"]
+                eng.oblige("overlap-is-(all-left)^dagger-(all-right)-in-the-given-order", z3.BoolVal(term_eq_py(a, T("MatMult", T("Dagger", T("hstack", *lefts)), T("hstack", *rights)))), detail=repr(a)[:300])
+                eng.oblige("compared-with-the-identity-of-the-number-of-vectors", z3.BoolVal(isinstance(b, T) and b.head == "eye" and term_eq_py(b.args[0], T("cols", T("hstack", *rights)))), detail=repr(b)[:200])
+            return
         eng.oblige("raises-ValueError-iff-the-overlap-is-not-the-identity", z3.BoolVal(raised == "ValueError") == z3.Not(close) if raised in (None, "ValueError") else z3.BoolVal(False),
                    detail=f"raised {raised}")
         ok = "allclose" in seen
         eng.oblige("overlap-compared-with-allclose", z3.BoolVal(ok))
         if ok:
             a, b, atol = seen["allclose"]
-            want_overlap = T("MatMult", T("Dagger", T("hstack", *lefts)), T("hstack", *rights))
-            from contracts.direct import term_eq_py
+            want_overlap = T("MatMult", T("Dagger", T("hstack", *[dense_of(x) for x in lefts])), T("hstack", *[dense_of(x) for x in rights]))
             eng.oblige("overlap-is-(all-left)^dagger-(all-right)-in-the-given-order", z3.BoolVal(term_eq_py(a, want_overlap)), detail=repr(a)[:300])
-            eng.oblige("compared-with-the-identity-of-the-number-of-vectors", z3.BoolVal(isinstance(b, T) and b.head == "eye" and term_eq_py(b.args[0], T("cols", T("hstack", *rights)))), detail=repr(b)[:200])
+            eng.oblige("compared-with-the-identity-of-the-number-of-vectors",
+                       z3.BoolVal(isinstance(b, T) and b.head == "eye" and term_eq_py(b.args[0], T("cols", T("hstack", *[dense_of(x) for x in rights])))), detail=repr(b)[:200])
             eng.oblige("tolerance-is-atol", z3.BoolVal(atol is ATOL))
-    return run_unit(f"block_diagonalization:_check_biorthonormality[{nsub} subspaces]", harness, functions=[(MODULE, "_check_biorthonormality")], timeout_ms=timeout_ms)
+    return run_unit(f"block_diagonalization:_check_biorthonormality[{nsub} subspaces,{kind}]", harness, functions=[(MODULE, "_check_biorthonormality")], timeout_ms=timeout_ms)
 
 
 def unit_normalize_subspaces(timeout_ms=20000):
